@@ -400,6 +400,39 @@ MUTANTS = {
          "            (\n                sound_event.uuid\n                if sound_event.uuid in self._seen\n"
          "                else (self._seen.add(sound_event.uuid) or self.soundevent_adapter.to_aoef(sound_event).uuid)\n            )\n"),
     ],
+    # --- histories and unusual construction (HISTORIES.md)
+    # the assembled recording is memoised per *Python object* (module-level, keyed by id): visible only when the same
+    # live object is saved again in the process
+    "H1-recording-memoised-by-object-identity": [
+        ("recording.py", "class RecordingAdapter(\n", "_BY_OBJECT: dict = {}\n\n\nclass RecordingAdapter(\n"),
+        ("recording.py", "        tag_ids = [self._tag_adapter.to_aoef(tag).id for tag in obj.tags]\n",
+         "        _hit = _BY_OBJECT.get(id(obj))\n        if _hit is not None and _hit[0] is obj and _hit[2] == str(self.audio_dir):\n"
+         "            return _hit[1]\n        tag_ids = [self._tag_adapter.to_aoef(tag).id for tag in obj.tags]\n"),
+        ("recording.py", "        return RecordingObject(\n            uuid=obj.uuid,\n            path=path,\n",
+         "        _res = RecordingObject(\n            uuid=obj.uuid,\n            path=path,\n"),
+        ("recording.py", "            license=obj.license,\n        )\n\n    def assemble_soundevent",
+         "            license=obj.license,\n        )\n        _BY_OBJECT[id(obj)] = (obj, _res, str(self.audio_dir))\n"
+         "        return _res\n\n    def assemble_soundevent"),
+    ],
+    # an `exclude` given to one save becomes the default of the following ones
+    "H3-exclude-option-leaks-into-later-saves": [
+        ("__init__.py", "IncEx = Union[Set[int], Set[str], Dict[int, Any], Dict[str, Any], None]\n",
+         "IncEx = Union[Set[int], Set[str], Dict[int, Any], Dict[str, Any], None]\n_LAST_EXCLUDE: list = [None]\n"),
+        ("__init__.py", "    aoef_object = to_aeof(obj, audio_dir=audio_dir)\n",
+         "    aoef_object = to_aeof(obj, audio_dir=audio_dir)\n    if exclude is not None:\n        _LAST_EXCLUDE[0] = exclude\n"
+         "    exclude = _LAST_EXCLUDE[0]\n"),
+    ],
+    # the recording of a sound event is converted only when it is a plain `Recording` (exact class), else only its id
+    "H6-nested-subclass-instances-only-get-an-id": [
+        ("sound_event.py", "            recording=self.recording_adapter.to_aoef(obj.recording).uuid,\n",
+         "            recording=(\n                self.recording_adapter.to_aoef(obj.recording).uuid\n"
+         "                if type(obj.recording) is data.Recording\n                else self.recording_adapter.get_id(obj.recording)\n            ),\n"),
+    ],
+    # matches given as a tuple (the field is a Sequence) are not written
+    "H7-matches-only-when-a-list": [
+        ("clip_evaluation.py", "                if obj.matches\n                else None\n",
+         "                if obj.matches and isinstance(obj.matches, list)\n                else None\n"),
+    ],
 }
 
 
@@ -483,7 +516,7 @@ def main():
     res = []
     for group, table in (("R", REWRITES), ("M", MUTANTS), ("S", SHAPES)):
         for name, edits in table.items():
-            if want and not any(w == name or w == group or name.startswith(w + "-") for w in want):
+            if want and not any(w == name or w == group or name.startswith(w + "-") or (len(w) == 1 and name.startswith(w) and group == "M" and w == "H") for w in want):
                 continue
             r = run_one(name, edits)
             expect = 0 if group == "R" else 1
